@@ -883,6 +883,9 @@ func (e *AnimEncoder) encodeSubFrame(currCanvas *image.NRGBA, durMS int) error {
 	}
 
 	subImgNone := extractSubImage(currCanvas, rectNone)
+	if blendNone == BlendAlpha {
+		clearKeptPixels(subImgNone, e.prevCanvas, rectNone)
+	}
 	bsNone, err := e.encodeFrame(subImgNone, e.opts.Lossless, e.opts.Quality)
 	if err != nil {
 		return fmt.Errorf("animation: encoding sub-frame (dispose-none): %w", err)
@@ -915,6 +918,9 @@ func (e *AnimEncoder) encodeSubFrame(currCanvas *image.NRGBA, durMS int) error {
 	}
 
 	subImgBG := extractSubImage(currCanvas, rectBG)
+	if blendBG == BlendAlpha {
+		clearKeptPixels(subImgBG, prevDisposedCanvas, rectBG)
+	}
 	bsBG, err = e.encodeFrame(subImgBG, e.opts.Lossless, e.opts.Quality)
 	if err != nil {
 		// If encoding the BG candidate fails, fall through with DISPOSE_NONE.
@@ -1122,6 +1128,24 @@ func snapToEven(r image.Rectangle) image.Rectangle {
 	minX := r.Min.X &^ 1
 	minY := r.Min.Y &^ 1
 	return image.Rect(minX, minY, minX+w, minY+h)
+}
+
+// clearKeptPixels prepares a sub-frame for alpha blending. The blending checks
+// accept a pixel that is not opaque only because it is (nearly) unchanged from
+// the canvas underneath; blending such a pixel onto the canvas would not
+// reproduce it (alpha 128 over alpha 128 gives 192), so it is made fully
+// transparent, which leaves the canvas pixel as it is. This is the part of the
+// C libwebp IncreaseTransparency step that blending relies on.
+func clearKeptPixels(sub, prev *image.NRGBA, rect image.Rectangle) {
+	b := sub.Bounds()
+	for y := 0; y < b.Dy() && rect.Min.Y+y < rect.Max.Y; y++ {
+		for x := 0; x < b.Dx() && rect.Min.X+x < rect.Max.X; x++ {
+			px := sub.NRGBAAt(b.Min.X+x, b.Min.Y+y)
+			if px.A != 0xFF && px.A != 0 && px.A == prev.NRGBAAt(rect.Min.X+x, rect.Min.Y+y).A {
+				sub.SetNRGBA(b.Min.X+x, b.Min.Y+y, color.NRGBA{})
+			}
+		}
+	}
 }
 
 // extractSubImage creates a new NRGBA image containing the pixels from src
